@@ -65,6 +65,22 @@ class Ctx:
                 if a:
                     used |= set(a)
                 ok_all = ok_all and good
+        # bridge modules: the equalities "generated from the source = hand-written model" are listed and audited one by one
+        for mod in extra_modules:
+            if '.Bridge.' not in mod:
+                continue
+            rel = mod.replace('.', '/') + '.lean'
+            ths = [t for t in C.theorems_in(rel) if t.endswith('_eq') or t.endswith('_static') or t.endswith('_dynamic')]
+            if not ths:
+                continue
+            ax, txt = C.print_axioms(mod, ths)
+            for t in ths:
+                a = ax.get(t)
+                good = a is not None and set(a) <= C.ALLOWED_AXIOMS
+                self.obligation('bridge:' + t, good, '' if good else ('axioms: ' + str(a) if a is not None else 'not checked (module does not build: the generated definition no longer equals the model)'))
+                if a:
+                    used |= set(a)
+                ok_all = ok_all and good
         self.coverage['trusted_base'] = sorted(used) + ['Lean 4.33.0 kernel', 'translator/amc2lean.py + clang 14 AST',
                                                          'hand-written Prim/ semantics (slot lifetime, std algorithms)']
         if self.tier == 'thorough':
